@@ -169,6 +169,8 @@ def call_builtin(ex, name, args, kwargs, node):
         if not args:
             return Seq(kind, [])
         x = args[0]
+        if isinstance(x, Seq) and name == "np.asarray" and x.kind == "array" and "dtype" not in kwargs:
+            return x                      # np.asarray of an ndarray is the SAME object (no copy): aliasing is preserved
         if isinstance(x, Seq):
             return x.copy(kind)
         if isinstance(x, RangeV) and all(isinstance(t, int) for t in (x.lo, x.hi, x.step)):
@@ -184,6 +186,21 @@ def call_builtin(ex, name, args, kwargs, node):
         if len(args) >= 2:
             return _minmax(ex, name, args, node)
         raise OutOfSubset("%s over symbolic sequence" % name, node)
+    if name == "np.square":
+        (x,) = args
+        return ex.binop(ast.Mult(), x, x, node)
+    if name in ("np.abs", "np.absolute") and isinstance(args[0], Seq):
+        x = args[0]
+        if not x.concrete:
+            raise OutOfSubset("np.abs of a symbolic array", node)
+        vals = [call_builtin(ex, "abs", [it], {}, node) for it in x.items]
+        out = kwargs.get("out")
+        if out is not None:
+            if not (isinstance(out, Seq) and out.concrete and len(out.items) == len(vals)):
+                raise OutOfSubset("np.abs(..., out=...) with a non-matching output array", node)
+            out.items[:] = vals          # written in place
+            return out
+        return Seq("array", vals)
     if name in ("abs", "np.abs", "math.fabs", "np.absolute"):
         (x,) = args
         x = V.bool_to_int(x)
